@@ -7,7 +7,7 @@ from . import common as C
 PKINDS = ['pthread', 'pprocess', 'premote']
 
 
-def gen_pool_case(ctx, rng, i, tag, retry=None, enqueue_fn_ok=True, return_results=None, survivor=None):
+def gen_pool_case(ctx, rng, i, tag, retry=None, enqueue_fn_ok=True, return_results=None, survivor=None, directed_late=False):
     from harness.check import draw_env
     nw = rng.randrange(1, 4)
     remote = rng.random() < 0.35
@@ -30,11 +30,20 @@ def gen_pool_case(ctx, rng, i, tag, retry=None, enqueue_fn_ok=True, return_resul
             if r < 0.5:
                 faults.append({'kind': 'sigkill', 'victim_index': rng.randrange(nw), 'nline': rng.randrange(30, 400)})
             else:
-                faults.append({'kind': 'sigkill', 'role': 'workload-pool', 'any_thread': True,
+                faults.append({'kind': 'sigkill', 'any_thread': True,
                                'qualname': rng.choice(['Pool.run.<locals>.handle_new_result', 'Pool.run.<locals>.try_enqueue',
                                                        'Pool.run.<locals>.handle_enqueue', 'Pool.run.<locals>.handle_death',
                                                        'Pool.run.<locals>.next_inputs', 'Pool.run']),
                                'occ': rng.randrange(1, 8), 'target': 'victim', 'target_index': rng.randrange(nw)})
+    if directed_late:
+        # directed family: kill the worker that has just delivered a result, before the pool refills it
+        nw = 3
+        workers = [{'kind': rng.choice(['pprocess', 'pprocess', 'premote'] if remote else ['pprocess']), 'fail_after': None,
+                    'probe': rng.random() < 0.5} for _ in range(nw)]
+        inputs = rng.sample(range(1, 60), rng.randrange(4, 9))
+        poison = []
+        faults = [{'kind': 'sigkill', 'any_thread': True, 'qualname': 'Pool.run.<locals>.handle_new_result',
+                   'occ': rng.randrange(1, 7), 'target': 'frame-local:worker'}]
     if survivor is True:
         faults = [f for f in faults if False]
     refuse = None
@@ -42,7 +51,7 @@ def gen_pool_case(ctx, rng, i, tag, retry=None, enqueue_fn_ok=True, return_resul
         refuse = [[rng.randrange(nw), x] for x in inputs if rng.random() < 0.3]
     pol, knobs = draw_env(rng, tcp=remote)
     return {'kind': 'pool', 'workers': workers, 'inputs': inputs, 'poison': poison, 'faults': faults, 'refuse': refuse,
-            'extra_pending': rng.choice([0, 0, 1, 2]), 'retry': rng.choice([True, True, False]) if retry is None else retry,
+            'extra_pending': rng.choice([1, 2]) if directed_late else rng.choice([0, 0, 1, 2]), 'retry': rng.choice([True, True, False]) if retry is None else retry,
             'return_results': rng.choice([True, True, True, False]) if return_results is None else return_results,
             'input_mode': rng.choice(['iter', 'iter', 'callable']), 'slow': rng.choice([0.0, 0.0, 0.01]),
             'use_with': rng.random() < 0.5, 'policy': pol, 'knobs': knobs, 'sched_seed': ctx.case_seed(tag, i)}
